@@ -513,6 +513,14 @@ macro_rules! kind_search {
 macro_rules! kind_reversed {
     (di) => {
         /// runs `f(index, edge, which)` for every edge the iterator yields; `f` returns false to stop (cap); returns false if stopped
+        /// a second iterator over the same list, kept suspended while the loop under test runs
+        pub fn second_iter<'a>(n: &'a N, which: &str) -> Box<dyn Iterator<Item = (usize, usize, u32)> + 'a> {
+            if which == "in" {
+                Box::new(n.iter_in().map(|Edge(u, v, e)| (*u.key(), *v.key(), e)))
+            } else {
+                Box::new(n.iter_out().map(|Edge(u, v, e)| (*u.key(), *v.key(), e)))
+            }
+        }
         /// the same loop driven by the iterator's internal iteration (`for_each`, i.e. `fold`; also behind `count`, `sum`, `map`)
         pub fn iter_fold(n: &N, which: &str, f: &mut dyn FnMut(usize, (usize, usize, u32), &str) -> bool) -> bool {
             let mut i = 0;
@@ -599,6 +607,9 @@ macro_rules! kind_reversed {
         }
     };
     (un) => {
+        pub fn second_iter<'a>(n: &'a N, _which: &str) -> Box<dyn Iterator<Item = (usize, usize, u32)> + 'a> {
+            Box::new(n.iter().map(|Edge(u, v, e)| (*u.key(), *v.key(), e)))
+        }
         pub fn iter_fold(n: &N, _which: &str, f: &mut dyn FnMut(usize, (usize, usize, u32), &str) -> bool) -> bool {
             let mut i = 0;
             n.iter().for_each(|Edge(u, v, e)| {
@@ -1054,6 +1065,10 @@ macro_rules! ext_mod {
                         let mut bad: Option<String> = None;
                         let node = st.node(u).clone();
                         // `iter ... fold`: the loop is driven by `Iterator::for_each` instead of a `for` statement
+                        // a second iterator over the same list is created first, stepped once and left suspended while the loop
+                        // under test (and whatever its body does) runs; it is drained afterwards
+                        let mut it2 = second_iter(&node, t[1]);
+                        let _ = it2.next();
                         let looper: fn(&N, &str, &mut dyn FnMut(usize, (usize, usize, u32), &str) -> bool) -> bool = if t.get(4) == Some(&"fold") { iter_fold } else { iter_loop };
                         let r = looper(&node, t[1], &mut |i, tri, which| {
                             let live = st.lists();
@@ -1075,6 +1090,18 @@ macro_rules! ext_mod {
                             }
                             yielded.len() < 300
                         });
+                        // the suspended iterator goes on: what it yields now exists now
+                        for (k, tri) in it2.enumerate() {
+                            let live = st.lists();
+                            let n = live.iter().find(|n| n.key == u).unwrap();
+                            let ok = if t[1] == "in" { tri.1 == u && n.inn.contains(&(tri.0, tri.2)) } else { tri.0 == u && n.out.contains(&(tri.1, tri.2)) };
+                            if !ok && bad.is_none() {
+                                bad = Some(format!("a second iterator over the same list, suspended while the loop ran, then yielded {:?}, which is not an edge of node {u} at that moment", tri));
+                            }
+                            if k > 400 {
+                                break;
+                            }
+                        }
                         if !ext.graphs.is_empty() {
                             ext.graphs[0] = g0.into_inner();
                         }
